@@ -287,6 +287,14 @@ func Y(site uint32) {
 	if t.opSteps > softBudget {
 		// (the hard budget is for client operations: a library goroutine that
 		// lives for the whole process has no operation to finish)
+		if debugStall && t.opSteps == 1_000_000 {
+			println("STALL cur", cur, "site", site, "ntasks", ntasks, "policy", sched.Policy, "lease", leaseTask, leaseLeft, "rr", rrCursor)
+			for i := int32(1); i < ntasks; i++ {
+				if tasks[i].state != stUnused {
+					println("  task", i, "state", tasks[i].state, "client", tasks[i].client, "blockedOn", tasks[i].blockedOn, "persist", tasks[i].persist, "site", tasks[i].lastSite, "opSteps", tasks[i].opSteps)
+				}
+			}
+		}
 		if t.opSteps > opBudget && t.client {
 			abort(stallKind("no-progress"), stallWhy()+noProgressDetail(t, site))
 		}
@@ -949,6 +957,8 @@ func Go(f func()) {
 // earlier run; anywhere else (the real-goroutine engine, the repository's own
 // tests on the instrumented copy) a real goroutine. Read from the environment
 // because package initialisation of the library runs before main.
+var debugStall = os.Getenv("VSIM_DEBUG_STALL") != ""
+
 var procMode = func() int {
 	if os.Getenv("VSIM_MODE") == "run" {
 		return 1
@@ -1271,3 +1281,24 @@ func stallWhy() string {
 // caller waits for something the simulator removed: a stall after that is the
 // simulator's doing and is reported as a harness limit, never as a deadlock.
 var reapedTotal int
+
+// Gosched replaces runtime.Gosched in instrumented library code: the task
+// really yields - the turn goes to the next runnable task, whatever the policy.
+// (A polite spin loop would otherwise keep the turn under a non-preemptive
+// policy until the starvation guard steps in, a hundred thousand steps later.)
+//
+//go:norace
+func Gosched() {
+	if !on || aborted || allDone {
+		runtime.Gosched()
+		return
+	}
+	if sched.Policy == PolExplicit {
+		return // the recorded switch at this point was taken at the preceding yield
+	}
+	t := &tasks[cur]
+	if to := rrNext(rrCursor, cur); to >= 0 {
+		rrCursor = to
+		preempt(t, t.lastSite, to, 0)
+	}
+}
